@@ -9,6 +9,9 @@ declare -A DEMODIR=( [C01m1]=core/breaker [C01m2]=core/breaker [C14m1]=core/stor
 for d in /tmp/wt-C*/_out/m*; do
   prop=$(echo $d | sed 's/.*wt-\(C[0-9]*\).*/\1/'); m=$(basename $d); id=${prop}_$m
   dd=${DEMODIR[$prop$m]}
+  [ -f $d/DEMODIR ] && dd=$(cat $d/DEMODIR)
+  grep -q "^DEMODIR:" $d/README.md && dd=$(grep "^DEMODIR:" $d/README.md | head -1 | sed "s/DEMODIR: *//; s/[` ]//g; s/\/$//")
+  [ -n "$1" ] && [[ ! "$id" =~ $1 ]] && continue
   if [ -z "$dd" ]; then dd=$(grep -o -i "cop[a-z]* into \`[^\`]*\`" $d/README.md | head -1 | sed 's/.*`\(.*\)`/\1/' | sed 's/\/$//'); fi
   out=/verif/seeded/$id; mkdir -p $out
   cp $d/patch.diff $out/patch.diff; cp $d/demo_test.go $out/demo_test.go; cp $d/README.md $out/agent_README.md
